@@ -43,7 +43,7 @@ def paths_block() -> tuple[str, dict]:
 def write_if_changed(name: str, imports: list[str], body: str) -> bool:
     text = ("".join(f"import {m}\n" for m in imports)
             + "/-! GENERATED from /repo by harness/gen.py on every run — do not edit. -/\n"
-            + "namespace CM.Generated\n\n" + body + "\nend CM.Generated\n")
+            + "set_option linter.unusedSimpArgs false\nnamespace CM.Generated\n\n" + body + "\nend CM.Generated\n")
     p = common.LEAN_DIR / "CM" / "Generated" / f"{name}.lean"
     p.parent.mkdir(exist_ok=True)
     if not p.exists() or p.read_text() != text:
@@ -68,8 +68,10 @@ def generate() -> dict:
     except ImportError:
         py2lean = None
     if py2lean is not None:
-        b, i = py2lean.block()
+        d, t, i = py2lean.block()
         info.update(i)
-        if write_if_changed("Preds", ["CM.Model.Location"], b):
+        if write_if_changed("Preds", ["CM.Model.Location"], d):
             info["rewritten"].append("Preds")
+        if write_if_changed("PredsEq", ["CM.Generated.Preds"], t):
+            info["rewritten"].append("PredsEq")
     return info
